@@ -61,6 +61,17 @@ Theorem C06_ipv4_search_finds_only_standalone_dotted_quads :
   Ipv4Token.dotted_quad (RxLang.sub s a b).
 Proof. exact Ipv4Token.ipv4_search_finds_only_standalone_dotted_quads. Qed.
 
+(* ... and the span is a WHOLE token: every character in it is a digit or a dot (none of them a delimiter), the characters on both sides (if any) are
+   delimiters: a maximal run of token characters.  A replacement therefore leaves no fragment of the original address behind, and a match never
+   starts or ends inside a longer token. *)
+Theorem C06_ipv4_match_is_a_whole_token :
+  forall (s : list chr) (i : nat) (c : caps) (j : nat) (c' : caps), (i <= length s)%nat ->
+  In (j, c') (ms s IPV4_RX i c) ->
+  Forall (fun x => in_cset x Ipv4Token.ENC = false) (RxLang.sub s i j) /\
+  (i = 0%nat \/ exists x, nth_error s (i - 1) = Some x /\ in_cset x Ipv4Token.ENC = true) /\
+  (eol s j = true \/ exists x, nth_error s j = Some x /\ in_cset x Ipv4Token.ENC = true).
+Proof. exact Ipv4Token.ipv4_match_is_a_whole_token. Qed.
+
 Theorem C06_dotted_quad_parts_are_numerals_up_to_255 :
   forall t : list chr, Ipv4Token.octet_core t -> (Ipv4Token.dec_value t <= 255)%N /\ Forall Ipv4Token.dig t.
 Proof. exact Ipv4Token.octet_core_value. Qed.
@@ -73,3 +84,4 @@ Print Assumptions C06_generated_address_patterns_alphabets.
 Print Assumptions C06_generated_ipv4_pattern_matches_only_standalone_dotted_quads.
 Print Assumptions C06_ipv4_search_finds_only_standalone_dotted_quads.
 Print Assumptions C06_dotted_quad_parts_are_numerals_up_to_255.
+Print Assumptions C06_ipv4_match_is_a_whole_token.
